@@ -589,6 +589,8 @@ class World:
         self.ref = {}            # ver -> bytes of an undisturbed Env.to_file of the entry: ONLY their number is used (to
         #                          choose crash points); no file is ever recognised by comparing it with them
         self._refobj = {}        # ver -> the object the reference was made from
+        self.lastdata = {}       # t -> the bytes classify() last read from t's file
+        self.before_data = {}    # t -> the bytes of t's file before the current write_env call / session
         self.known = {}          # (t, bytes) -> ver: contents already found to hold exactly {name of t: entry ver}
         self.wrote = {}          # t -> the bytes the harness SAW being written to t's file itself by a write that did
         #                          not complete (a crash: everything that went through the wrapped open, the call that
@@ -696,6 +698,7 @@ class World:
                 data = f.read()
         except OSError:
             return ['unreadable', 'WAITING', 0]
+        self.lastdata[t] = data
         if not data:
             return ['empty', 'WAITING', 0]
         ver = self.known.get((t, data))
@@ -821,7 +824,9 @@ class World:
                 self._refbytes(ver, entry)
         targets, k = self._crash_target(order, crash)
         self._emit(op='start', order=list(order))
+        self.lastdata = {}
         before = {t: self.classify(t) for t in order}
+        self.before_data = dict(self.lastdata)
         hooks = _OpenHooks(self, targets, k)
         raised = None
         with _Unreadable(self), hooks:
@@ -859,6 +864,22 @@ class World:
             mine = [r for r in recs if r['t'] == victim and r['dest'] and not r['err']]
             self.wrote[victim] = b''.join(mine[-1].get('data', ())) if mine else b''
             self.placed.pop(victim, None)
+        # A write that completed defines what a complete file of that entry looks like, whatever the serialization format is
+        # (the statement does not fix one: third audit, benign3-C14, a framed format with a digest): a file that changed
+        # during the call, belongs to a task whose write was not the interrupted one, and is not a pickle the harness can
+        # read, is taken as the complete file of that entry.  What valjean reads back from it is still compared with the
+        # entry (clauses Exact / One), so a write that produces something unreadable or wrong is still reported.
+        for t in order:
+            if t == victim or t not in self.mem or 'output_dir' not in self.mem[t][1] or (died and t not in first):
+                continue
+            if self.classify(t)[0] == 'garbage' and (before[t][0] != 'garbage' or self.before_data.get(t) != self.lastdata.get(t)):
+                try:
+                    with open(self.path(t), 'rb') as f:
+                        data = f.read()
+                except OSError:
+                    continue
+                if data and self.placed.get(t) != data:
+                    self.known[(t, data)] = self.mem[t][0]
         final = self.files()
 
         def complete(t):
@@ -1086,7 +1107,9 @@ class World:
                                   env_filename=FILENAME, env_format='pickle')
         config = Config({'path': {'log-root': os.path.join(self.root, '.log'), 'output-root': self.root,
                                   'report-root': os.path.join(self.root, '.report')}})
+        self.lastdata = {}
         before = {t: self.classify(t) for t in range(1, self.ntasks + 1)}
+        self.before_data = dict(self.lastdata)
         box = {}
 
         def target():
